@@ -29,17 +29,34 @@ demonstration fails with it and passes without it; then the change was applied
 to /repo, the property's check was run, and the change was undone
 (`tools/seedcheck.py`). `meta.json` in each directory records what was run.
 
-First round: 34 changes (2 per property). 26 were reported at once by the quick
-tier. The 8 that were missed pointed at holes in the enumerated spaces, which
-were then widened (none of the oracles had to change): a process limit that is
-not a power of two in C04's quick tier; non-zero multiples of the core size as
-`;assert` / FOR / ORG values and constants in asserts (C07); an EQU defined
-between two FOR blocks (C08); a warrior exactly as long as the configured
-maximum (C09); field values below -M in load files (C10); a skip instruction in
-the quick alphabet of C12 (executed at the last address); FOR counts that
-depend on several EQUs in C14's map-order programs; a process-limit-sensitive
-warrior pair in the CLI grid (C17). After that all 34 are reported. The table
-is generated from the last run of every seed against the current machinery.
+First round: 34 changes (2 per property, one agent per property). 26 were
+reported at once by the quick tier. The 8 that were missed pointed at holes in
+the enumerated spaces, which were then widened (no oracle had to change): a
+process limit that is not a power of two in C04's quick tier; non-zero
+multiples of the core size as `;assert` / FOR / ORG values and constants in
+asserts (C07); an EQU defined between two FOR blocks (C08); a warrior exactly as
+long as the configured maximum (C09); field values below -M in load files
+(C10); a skip instruction in the quick alphabet of C12 (executed at the last
+address); FOR counts that depend on several EQUs in C14's map-order programs; a
+process-limit-sensitive warrior pair in the CLI grid (C17).
+
+Second round: 34 more (agents were told which ideas had been used and asked for
+subtler ones). While they were being written the spaces were widened again from
+reading the first round's lessons (process limits 5..17 in C02, a post-increment
+letter in the battle alphabet, load offsets >= M under the recording listener,
+label division/remainder operands in C03, several asserts per program in C07,
+the NOP94 mode in C16, core size == 3*length+1 for random placement in C17,
+warrior data without metadata in the copy-isolation grid). 33 were reported;
+the one miss (an unlocked package-level cache built lazily by concurrent FOR
+expansions: a data race that leaves results unchanged) was hidden by the race
+pass computing its sequential reference results *before* the concurrent rounds,
+which warmed the cache. The pass now starts with the widest fan-out on a cold
+process and computes the reference afterwards.
+
+After these changes all 68 are reported. The table is generated from the last
+run of every seed against the current machinery. (Two of the agents also
+pointed out defects of the unchanged tree while reading: D20 and D21 of
+section 11.)
 
 ''' + '\n'.join(table) + '\n'
 open('/verif/DESIGN.md', 'w').write(head + body)
